@@ -2,12 +2,17 @@
 
 For each byte-level entry point, with the input an UNCONSTRAINED byte string:
   T  termination      every loop has a decreasing measure
-  E  containment      only the declared (ordinary) exception classes escape
+  E  containment      only the declared (ordinary) exception classes escape; at the boundary functions nothing escapes
   S  state safety     the owning object's representation invariant holds on EVERY exit, the exceptional ones included,
                       so the next well-formed input is handled from a good state
 
-Part 1 (this file, first section): the AT-command stream of HFP -- `HfProtocol._read_at`, `AgProtocol._read_at`,
-`AtResponse.parse_from`, `AtCommand.parse_from`, `at.tokenize_parameters`, `at.parse_parameters`.
+Files:  c17_hostile.py  part 1: the AT-command stream of HFP -- HfProtocol._read_at, AgProtocol._read_at,
+                        AtResponse.parse_from, AtCommand.parse_from, at.tokenize_parameters, at.parse_parameters
+        c17_pdus.py     part 2: ATT_PDU.from_bytes (list-parsing constructors), Device.on_gatt_pdu, Client.on_gatt_pdu
+        c17_l2cap.py    part 3: L2CAP_Control_Frame.from_bytes, ChannelManager.on_pdu / on_control_frame, CoC on_pdu for any K-frame
+        c17_smp.py      part 4: SMP_Command.from_bytes, Manager.on_smp_pdu, Session.on_smp_command, Host.on_packet / on_hci_event_packet
+        c17_misc.py     part 5: AdvertisingData.append / from_bytes, sdp.Server.on_pdu, sdp.Client.on_pdu
+        c17_unwind.py   part 6: the layers an exception unwinds through (ACL assembler, RFCOMM DLC, CoC) with a consumer that raises
 """
 import re
 
